@@ -566,6 +566,21 @@ def _annotation_roots(pb, rng, size):
             for f_ in fc_["feature_intervals"]:
                 f_["is_primary_feature"] = None
             fc_["feature_intervals"].insert(rng.randint(0, len(fc_["feature_intervals"])), tw)
+    # one text used in two roles by different objects: as a symbol (written as Name=, where a comma is escaped) and as a free
+    # qualifier value (where it is not) - whatever is remembered per text rather than per role shows
+    if rng.random() < 0.15 and coll["genes"]:
+        text = rng.choice(["dnaA, replication initiator", "a,b", "x;y,z", "50% identity, partial"])
+        g_ = rng.choice(coll["genes"])
+        if rng.random() < 0.5:
+            g_["gene_symbol"] = text
+        else:
+            rng.choice(g_["transcripts"])["transcript_symbol"] = text
+        holder = rng.choice(coll["genes"] + coll["feature_collections"] + [t_ for x_ in coll["genes"] for t_ in x_["transcripts"]])
+        q_ = holder.get("qualifiers") or {}
+        q_.setdefault("note", [])
+        if text not in q_["note"]:
+            q_["note"].append(text)
+        holder["qualifiers"] = q_
     g = coll["parent"]["genome"]
     L = len(g["seq"])
     # some coding transcripts get a real ORF, often with an alternative start codon: answers that depend on the
